@@ -105,12 +105,12 @@ theorem subImageSkips_ok {f : EG.Font.MonoFont} (hf : FontOk f) {a : Rect}
         have e2 : i32AsU32 a.tl.y = a.tl.y.toNat := i32AsU32_nonneg (by omega)
         simp only [hzf, hnx, hny, Bool.false_eq_true, or_self, ↓reduceIte, e1, e2, Bool.false_or,
           decide_false]
-        rw [chkU32_ok (by omega)]
+        rw [chkU64_ok (by omega)]
         simp only [Option.bind_eq_bind, Option.bind_some]
         by_cases hxr : a.tl.x.toNat + a.size.w > f.imgW
         · exact ⟨none, by simp [hxr], by simp [hxr]⟩
         · simp only [hxr, ↓reduceIte, decide_false, Bool.false_or]
-          rw [chkU32_ok (by omega)]
+          rw [chkU64_ok (by omega)]
           simp only [Option.bind_some]
           by_cases hyb : a.tl.y.toNat + a.size.h > f.imgH
           · exact ⟨none, by simp [hyb], by simp [hyb]⟩
